@@ -37,6 +37,11 @@ THEOREMS = [
     "MCHap.C01.dosagePairs_sound",
     "MCHap.C01.dosagePairs_injective",
     "MCHap.C01.recombPairs_sound",
+    "MCHap.C01.kernelMass_dosage",
+    "MCHap.C01.kernelMass_recomb",
+    "MCHap.C01.dosage_step_kernel_db",
+    "MCHap.C01.recomb_step_kernel_db",
+    "MCHap.C01.dosage_mass_order_independent",
     "MCHap.C01.exchange_db",
     "MCHap.C01.assemblePrior_dosage_perm",
     "MCHap.C01.asmW_perm",
